@@ -30,14 +30,21 @@ def _prestates(core, kinds):
     return d, tables, items
 
 
-def _route_step(core, kinds):
+def _route_step(core, kinds, resp_kind="number"):
+    """resp_kind: the kind of id the arriving response carries - "number" (any u64), "str" (any text) or "null"; the table's own ids are numbers"""
     d, tables, items = _prestates(core, kinds)
     ex = d.ex
     X = z3.BitVec("resp.id", 64)
     ids = [it["id"] for it in items] + [it["uid"] for it in items if "uid" in it]
     distinct = z3.Distinct(*ids) if len(ids) > 1 else z3.BoolVal(True)
     before = {id(t): T.sizes(ex, t.mgr) for t in tables}
-    nxt = d.step(tables, d.b_single, lambda e: [T.response_with_id(e, T.id_number(e, X), "resp"), z3.BitVecVal(4, 64)], "route")
+    def _resp_id(e):
+        if resp_kind == "str":
+            return T.mk_enum(e, "Id", "Str", [T.opaque("resp.id.text")])
+        if resp_kind == "null":
+            return T.mk_enum(e, "Id", "Null")
+        return T.id_number(e, X)
+    nxt = d.step(tables, d.b_single, lambda e: [T.response_with_id(e, _resp_id(e), "resp"), z3.BitVecVal(4, 64)], "route")
     fi_id = R.field_index("Response", "id")
     viol, reach = [], {"hit-call": [], "miss": [], "hit-sub": [], "hit-active": [], "hit-reserved": []}
     inv_viol = []
@@ -50,7 +57,7 @@ def _route_step(core, kinds):
         is_err = z3.is_bv_value(ret_d) and ret_d.as_long() == 1
         # which item (if any) does X equal on this path?
         which = None
-        for it in items:
+        for it in (items if resp_kind == "number" else ()):       # an id of another kind equals no numeric id
             for role, sym in (("id", it["id"]), ("uid", it.get("uid"))):
                 if sym is not None and not ex.feasible([pc, X != sym]):
                     which = (it, role)
@@ -136,6 +143,19 @@ def route_obligations(core, combos):
                                  "subscription) completes nothing and is reported as an error",
                             bounds=f"table built by real operations: {', '.join(kinds)}; all ids any pairwise-different u64; response id any u64",
                             keydetail="routing", replay=dict(scenario="c03_routing", vars={}, fixed={}, region=z3.BoolVal(True)), **common))
+        # the same table, the arriving response carrying an id of another kind (any text, or null): it is nobody's id
+        for rk in ("str", "null"):
+            d2, viol2, reach2, ab2, panics2, _ = _route_step(core, kinds, rk)
+            nm2 = f"{name}:{rk}-id:completes-nothing"
+            if ab2:
+                out.append(R.Result(engine="mirsym", name=nm2, kind="kernel", status="unsupported", detail=str(ab2[0])[:300], bodies=sorted(d2.ctx.encoded_bodies)))
+                continue
+            out.append(R.decide(nm2, "kernel", z3.Or(*(viol2 + panics2)) if viol2 + panics2 else z3.BoolVal(False), [z3.Or(*reach2["miss"])] if reach2["miss"] else [z3.BoolVal(False)],
+                                desc="a response whose id is a text (any) or null arrives at a table whose pending ids are numbers: it equals none of them, so no channel is completed "
+                                     "and the step reports an error - in particular the text \"7\" is not the id 7",
+                                bounds=f"table built by real operations: {', '.join(kinds)}; all ids any pairwise-different u64; response id any text / null",
+                                keydetail="routing-id-kind", replay=dict(scenario="c03_id_kind", vars={}, fixed={}, region=z3.BoolVal(True)),
+                                bodies=sorted(d2.ctx.encoded_bodies), extra={"models": T.CLIENT_DOC + MM.MAP_DOC}))
         out.append(R.decide(name + ":no-panic", "kernel", z3.Or(*panics) if panics else z3.BoolVal(False), rs, desc="no panic in the routing step", bounds="as above", keydetail="panic", **common))
         out.append(R.decide(name + ":index-invariant", "kernel", z3.Or(*inv_viol) if inv_viol else z3.BoolVal(False), rs,
                             desc="after the step the reverse index (subscription id -> request id) and the active subscriptions still correspond one to one - "
